@@ -52,7 +52,7 @@ GEN_NAME = {"convert_labels_to_integers": "relabel", "largest_connected_hypergra
 
 
 def plan(tier):
-    k = 120 if tier == "quick" else 30000
+    k = 250 if tier == "quick" else 30000
     p = {}
     for c in CLASSES:
         for m in public_methods(c):
